@@ -86,9 +86,13 @@ Theorem oidc_session_keyed_by_full_code_refuted :
   exists s, site_of "CreateOpenIDConnectSession" EAuthorize = Some s /\ st_key s = KeyComplete "authorization_code".
 Proof. eexists. split; reflexivity. Qed.
 
-Theorem oidc_device_delete_full_code_refuted :
-  exists s, site_of "DeleteOpenIDConnectSession" ETokenDevice = Some s /\ st_key s = KeyComplete "device_code".
-Proof. eexists. split; reflexivity. Qed.
+(* the device flow's OpenID Connect session is looked up and deleted under the device-code signature
+   (true since the repair recorded as fixed: oidc_device_delete_full_code) *)
+Theorem oidc_device_session_keyed_by_signature m s :
+  In m oidc_methods -> site_of m ETokenDevice = Some s -> st_key s = KeyOpaque.
+Proof.
+  intros I S. cbn in I. destruct I as [<-|[<-|[<-|[]]]]; cbn in S; try discriminate; injection S as <-; reflexivity.
+Qed.
 
 Theorem par_stores_raw_form_refuted :
   exists s input f, site_of "CreatePARSession" EPar = Some s /\ expected_form s input = Some f /\
